@@ -73,7 +73,7 @@ fn preferred_address_roundtrip_cid8() {
     pa_roundtrip(any_preferred_address_cid(Some(8)));
 }
 
-// @harness preferred_address_roundtrip props=C10 tier=thorough kind=proof timeout=2400 fn="PreferredAddress::{write,read,wire_size}, Codec for Ipv4Addr / Ipv6Addr / u16 / u8" desc="for every preferred address (either or both families, any addresses and ports other than the all-zero address with port 0 that encodes absence, connection IDs of 0..=20 bytes, any reset token): write produces exactly wire_size() bytes and read decodes them back to the same value, consuming all of them"
+// @harness preferred_address_roundtrip props=C10 tier=thorough kind=attempt bound="none (every connection-ID length 0..=20); the SAT query takes about 15 minutes alone and does not always finish next to the other thorough-tier harnesses, so it runs as an attempt under a time cap" timeout=2400 fn="PreferredAddress::{write,read,wire_size}, Codec for Ipv4Addr / Ipv6Addr / u16 / u8" desc="for every preferred address (either or both families, any addresses and ports other than the all-zero address with port 0 that encodes absence, connection IDs of 0..=20 bytes, any reset token): write produces exactly wire_size() bytes and read decodes them back to the same value, consuming all of them"
 #[cfg_attr(kani, kani::proof)]
 #[cfg_attr(kani, kani::unwind(24))]
 #[cfg_attr(verif_replay, test)]
